@@ -13,6 +13,26 @@ def run(tier):
     if isinstance(res, int):
         return res
     ctx, cases, mo, io = res
+    # granting against the verified model: the model's semaphore is proved to grant in arrival order when fair, to conserve
+    # permits and to be cancel-safe (Props/C18.v); where the first difference between the two traces is the RESULT of an
+    # acquisition (a hand-polled Acquire is Ready on one side and Pending on the other, an acquire / try_acquire answers
+    # differently) the implementation grants out of turn or withholds a grant: a failing input, not only a broken tie
+    ngr = 0
+    for k in range(len(cases)):
+        if mo[k] == io[k] or not mo[k] or not io[k]:
+            continue
+        a, b = mo[k].split(" "), io[k].split(" ")
+        j = next((i for i in range(min(len(a), len(b))) if a[i] != b[i]), None)
+        if j is None or not (a[j].startswith("O") and b[j].startswith("O")):
+            continue
+        fa, fb = a[j].split("@")[0].split(":"), b[j].split("@")[0].split(":")
+        if len(fa) < 3 or len(fb) < 3 or fa[:2] != fb[:2] or fa[1] not in ("43", "10", "11") or fa[2] == fb[2]:
+            continue
+        if ngr < 3:
+            ngr += 1
+            ctx.violation({"layer": "prog", "cases": [cases[k]], "implementation_trace": io[k][:3000], "model_trace": mo[k][:3000],
+                           "why": "task %s: %s answers %s where the verified semaphore model answers %s: a request is granted out of arrival order, or a grant is withheld"
+                                  % (fa[0][1:], {"43": "a poll of a queued Acquire", "10": "acquire", "11": "try_acquire"}[fa[1]], fb[2], fa[2])})
     # directed probes for a scenario the program language cannot express (an Acquire future polled by hand while the same
     # task acquires again): regression for F17
     probes = ["probe f17 0", "probe f17 1"]
